@@ -314,6 +314,18 @@ _STDLIB_ROOTS = ("os", "re", "json", "six", "hashlib", "codecs", "itertools", "o
 _CONSUMERS = ("sorted", "set", "frozenset", "list", "tuple", "any", "all", "sum", "min", "max", "dict")
 
 
+def _never_none(t):
+    """terms that cannot evaluate to None: text, non-None literals, containers, paths joined by os.path.join"""
+    if t[0] == "const":
+        return t[1] is not None
+    if t[0] in ("fmt", "tuple", "list", "dict", "set"):
+        return True
+    if t[0] == "call" and t[1] in (("global", "os.path.join"), ("global", "str"), ("global", "list"), ("global", "dict"),
+                                   ("global", "sorted"), ("global", "set"), ("global", "tuple"), ("global", "int"), ("global", "bool")):
+        return True
+    return False
+
+
 def canon(t):
     """spelling-independent forms of string building and of sort keys (see the module docstring)"""
     def is_str(x):
@@ -333,6 +345,38 @@ def canon(t):
             return ("const", False)      # the properties speak about paths given as strings: a str is not os.PathLike
         if k == "call" and x[1] == ("global", "getattr") and len(x[2]) == 3 and x[2][1] == ("const", "__fspath__") and x[2][2][0] == "const":
             return x[2][2]
+        if k == "comp" and len(x[3]) == 1 and x[3][0][1][0] == "comp" and x[3][0][1][1] in ("gen", "list") and len(x[3][0][1][3]) == 1:
+            # a comprehension over a comprehension: one comprehension over the inner collection
+            inner = x[3][0][1]
+            ovar = ("bound", x[3][0][0][1])
+            ivar_name = inner[3][0][0][1]
+            def put(t_):
+                return subst(t_, lambda y: inner[2] if y == ovar else None)
+            return canon(("comp", x[1], put(x[2]), ((("names", ivar_name), inner[3][0][1], tuple(inner[3][0][2]) + tuple(put(c) for c in x[3][0][2])),)))
+        if k == "cmp" and len(x[1]) == 1 and x[1][0] in ("is", "is not") and ("const", None) in x[2]:
+            other_ = [y for y in x[2] if y != ("const", None)]
+            if len(other_) == 1 and other_[0][0] in ("ifexp", "gate"):
+                c_, a_, b_ = other_[0][1], other_[0][2], other_[0][3]
+                if _never_none(a_) and b_ == ("const", None):
+                    return c_ if x[1][0] == "is not" else ("unary", "not", c_)     # (X if c else None) is not None  ==  c
+                if _never_none(b_) and a_ == ("const", None):
+                    return ("unary", "not", c_) if x[1][0] == "is not" else c_
+            if len(other_) == 1 and _never_none(other_[0]):
+                return ("const", x[1][0] == "is not")
+        if k == "call" and x[1] in (("global", "any"), ("global", "all")) and len(x[2]) == 1 and not x[3] \
+                and x[2][0][0] in ("list", "tuple") and 0 < len(x[2][0][1]) <= 16 and not any(e[0] == "starred" for e in x[2][0][1]):
+            # any([a, b]) has the truth value of (a or b)
+            els_ = x[2][0][1]
+            return els_[0] if len(els_) == 1 else ("boolop", "or" if x[1][1] == "any" else "and", tuple(els_))
+        if k == "unary" and x[1] == "not" and x[2][0] == "boolop":
+            # not (a or b) is (not a) and (not b)
+            return ("boolop", "and" if x[2][1] == "or" else "or", tuple(fn(("unary", "not", y)) or ("unary", "not", y) for y in x[2][2]))
+        if k == "unary" and x[1] == "not" and x[2][0] == "unary" and x[2][1] == "not" and x[2][2][0] in ("cmp", "boolop") :
+            return x[2][2]
+        if k == "call" and x[1] == ("global", "len") and len(x[2]) == 1 and not x[3] and x[2][0][0] == "const" and isinstance(x[2][0][1], str):
+            return ("const", len(x[2][0][1]))          # len("images-")
+        if k == "call" and x[1] == ("global", "list") and len(x[2]) == 1 and not x[3] and x[2][0][0] == "comp" and x[2][0][1] == "gen":
+            return ("comp", "list") + x[2][0][2:]          # list(<generator expression>) is the list comprehension
         if k == "idx" and x[1][0] in ("tuple", "list") and isinstance(x[2], int) and x[2] < len(x[1][1]) \
                 and not any(e[0] == "starred" for e in x[1][1]):
             return x[1][1][x[2]]          # (a, b)[0]
@@ -751,11 +795,13 @@ class Extractor(object):
                     and found[0][1][0][1] is True:
                 lid, coll = found[0][3][0]
                 el = ("elem", coll, lid)
-                if found[0][0] == el and not contains(other[0][0], lambda y: y == el):
+                if not contains(other[0][0], lambda y: y == el):
                     var = ("bound", "$0")
                     test = subst(found[0][1][0][0], lambda y: var if y == el else None)
-                    if not contains(test, lambda y: y[0] in ("carried",) or (y[0] == "elem" and y[2] == lid)):
-                        gen = ("comp", "gen", var, ((("names", "$0"), coll, (test,)),))
+                    val = subst(found[0][0], lambda y: var if y == el else None)
+                    if not contains(("tuple", (test, val)), lambda y: y[0] in ("carried", "bound") and y != var
+                                    or (y[0] == "elem" and y[2] == lid)):
+                        gen = ("comp", "gen", val, ((("names", "$0"), coll, (test,)),))
                         return ("call", ("global", "next"), (gen, other[0][0]), ())
         # guards that hold on every normal exit hold in the caller after the call (``if bad: raise`` in a checking helper)
         common = [g for g in exits[0][1] if all(g in e[1] for e in exits[1:])]
@@ -1151,11 +1197,18 @@ class Extractor(object):
             kind = "keys" if node.func.attr in _KEYS else "values" if node.func.attr in _VALUES else "items"
             node = node.func.value
         lit = None
+        if isinstance(node, ast.Attribute) and kind is None and self.self_consts is not None and isinstance(node.value, ast.Name) \
+                and env.get(node.value.id) == ("param", self.self_consts[0]):
+            # for x in self.<class-level tuple>: a declarative field list
+            cv = self.self_consts[1](node.attr)
+            if cv is not None and cv[0] in ("tuple", "list") and 0 < len(cv[1]) <= 16:
+                return list(cv[1])
+            return None
         if isinstance(node, (ast.List, ast.Tuple)) and kind is None:
             lit = node
         elif isinstance(node, ast.Dict):
             lit = node
-        elif isinstance(node, ast.Name) and node.id in env and node.id not in self.params:
+        elif isinstance(node, ast.Name) and node.id in env and (node.id not in self.params or node.id in self._init_env):
             v = env[node.id]
             if v[0] == "tuple" and kind is None:
                 rows = list(v[1])
@@ -1247,6 +1300,21 @@ class Extractor(object):
         if isinstance(v, (list, tuple)) and 0 < len(v) <= 16 and all(simple(x) for x in v):
             return [term(x) for x in v]
         return None
+
+    def _fresh_each_iteration(self, s):
+        """every name the loop body assigns (besides the loop target) is assigned by a top-level statement of the body before
+        anything in the body reads it: no value is carried from one iteration to the next"""
+        names = self._assigned_names(s.body) - self._assigned_names([ast.Assign(targets=[s.target], value=ast.Constant(None))])
+        for n in names:
+            first = None
+            for st in s.body:
+                if any(isinstance(x, ast.Name) and x.id == n for x in ast.walk(st)):
+                    first = st
+                    break
+            if not (isinstance(first, ast.Assign) and len(first.targets) == 1 and isinstance(first.targets[0], ast.Name)
+                    and first.targets[0].id == n and not any(isinstance(x, ast.Name) and x.id == n for x in ast.walk(first.value))):
+                return False
+        return True
 
     @staticmethod
     def _jumps_of(stmts):
@@ -1406,7 +1474,7 @@ class Extractor(object):
             if isinstance(s, ast.For) and not s.orelse and isinstance(s.iter, ast.Call) and self.inliner is not None and self.depth < 2 \
                     and not any(isinstance(a, ast.Starred) for a in s.iter.args) and not self._jumps_of(s.body) \
                     and not any(isinstance(n, ast.Return) for x in s.body for n in ast.walk(x)) \
-                    and not (self._assigned_names(s.body) - self._assigned_names([ast.Assign(targets=[s.target], value=ast.Constant(None))])):
+                    and self._fresh_each_iteration(s):
                 # ``for x in helper(...)`` where helper is a generator the rules do not know: the helper's body with the loop
                 # body in place of every yield
                 n_ev, counters = len(self.events), dict(self._counters)
